@@ -351,7 +351,10 @@ class PinMonitor(Base):
             self.free[self.tsites] = False
         self.last_link = None
         self.last_kw = None
-        self.check_value(solver.psi_init, {"where": "initial_state"})
+        # a seed solution is an input: its values on the terminals are the user's, not the solver's
+        self.seeded = solver.seed_solution is not None
+        if not self.seeded:
+            self.check_value(solver.psi_init, {"where": "initial_state"})
         self.check_rows({"where": "after_construction"})
 
     def check_value(self, psi, where):
@@ -420,7 +423,7 @@ class PinMonitor(Base):
                            "got": complex(np.asarray(res.psi)[idx]), "expected": complex(psi_ref[idx])})
 
     def on_save_begin(self, handler, state, data, running):
-        if "psi" in data:
+        if "psi" in data and not (self.seeded and int(state["step"]) == 0):
             self.check_value(data["psi"], {"where": "saved_frame", "step": int(state["step"])})
 
 
@@ -811,7 +814,7 @@ class TraceMonitor(Base):
             names.append("applied_vector_potential"); vals.append(res.A_applied)
         if res.epsilon is not None:
             names.append("epsilon"); vals.append(res.epsilon)
-        rec = dict(step=ctx["step"], time=ctx["time"], dt=float(res.dt), hashes={n: h(v) for n, v in zip(names, vals)},
+        rec = dict(step=ctx["step"], time=ctx["time"], dt=float(res.dt), dt_used=float(ctx.get("last_ok_dt", res.dt)), hashes={n: h(v) for n, v in zip(names, vals)},
                    screen_iters=ctx["screen_iters"], refusals=ctx["refusals"], failed=False)
         if self.probe is not None:
             rec["probe_mu"] = np.asarray(res.mu)[self.probe].tolist()
